@@ -327,7 +327,7 @@ func pgpSign(content []byte, clearsign bool) []byte {
 func c13Gen(r *core.Run) *c13Case {
 	t := r.T
 	c := &c13Case{}
-	c.Strategy = core.Pick(t, "strategy", "whole", "patch", "writefile", "pgp-detached", "pgp-inline", "pgp-clearsign", "msi", "pe-fixup", "cli", "cli")
+	c.Strategy = core.Pick(t, "strategy", "whole", "patch", "patch", "writefile", "pgp-detached", "pgp-inline", "pgp-clearsign", "msi", "pe-fixup", "cli", "cli")
 	c.DestMode = core.Pick(t, "dest", "other-present", "other-absent", "same", "symlink")
 	sizes := []int{1, 17, 4096, 32 * 1024, 32*1024 + 1, 70000, 200000}
 	c.Mime = "application/octet-stream"
@@ -347,25 +347,40 @@ func c13Gen(r *core.Run) *c13Case {
 		c.Mime = binpatch.MimeType
 		ps := binpatch.New()
 		var ref []refPatch
-		// a middle patch that changes size (forces rewrite even on the same
-		// path) or, with the hard link, a size-preserving one
-		kind := core.Pick(t, "patchkind", "grow-middle", "shrink-middle", "same-size", "append-eof")
-		if c.DestMode == "same" && (kind == "same-size" || kind == "append-eof") && !t.Chance(1, 4, "allow-in-place") {
+		// one to four patches at ascending offsets, each growing, shrinking or
+		// size-preserving; the last may instead append at end of file. Whether
+		// such a set can be applied in place is relic's decision (all
+		// size-preserving, or only the last one resizing and ending at EOF).
+		np := 1 + t.Choose(4, "npatch")
+		if n < 400 {
+			np = 1
+		}
+		slot := (n - 40) / np
+		kinds := ""
+		inPlaceCapable := true
+		for i := 0; i < np; i++ {
+			kind := core.Pick(t, "patchkind", "grow-middle", "shrink-middle", "same-size", "same-size", "append-eof")
+			if kind == "append-eof" && i != np-1 {
+				kind = "same-size"
+			}
+			off := int64(i*slot + t.Choose(slot-24, "off"))
+			switch kind {
+			case "grow-middle":
+				ref = append(ref, refPatch{off, 8, t.Bytes(24, "blob")})
+				inPlaceCapable = false
+			case "shrink-middle":
+				ref = append(ref, refPatch{off, 24, t.Bytes(3, "blob")})
+				inPlaceCapable = false
+			case "same-size":
+				ref = append(ref, refPatch{off, 16, t.Bytes(16, "blob")})
+			case "append-eof":
+				ref = append(ref, refPatch{int64(n), 0, t.Bytes(100, "blob")})
+			}
+			kinds += kind[:2]
+		}
+		kind := kinds
+		if c.DestMode == "same" && inPlaceCapable && !t.Chance(1, 4, "allow-in-place") {
 			c.HardLink = true // otherwise in-place would be chosen (exempt by the statement)
-		}
-		off := int64(t.Choose(n-40, "off"))
-		switch kind {
-		case "grow-middle":
-			ref = append(ref, refPatch{off, 8, t.Bytes(24, "blob")})
-		case "shrink-middle":
-			ref = append(ref, refPatch{off, 24, t.Bytes(3, "blob")})
-		case "same-size":
-			ref = append(ref, refPatch{off, 16, t.Bytes(16, "blob")})
-		case "append-eof":
-			ref = append(ref, refPatch{int64(n), 0, t.Bytes(100, "blob")})
-		}
-		if kind != "append-eof" && t.Chance(1, 2, "second") {
-			ref = append(ref, refPatch{int64(n), 0, t.Bytes(50, "blob2")})
 		}
 		for _, p := range ref {
 			ps.Add(p.Off, p.Old, p.Blob)
